@@ -73,8 +73,8 @@ CANDIDATES = {
     M.Account: ['Assets:New', 'Equity:X-1'],
     M.Currency: ['CAD', 'A.B-C'],
     M.Date: [datetime.date(2021, 2, 3), datetime.date(1999, 12, 31)],
-    M.NumberExpr: [D('7'), D('-1.5'), D('0.10'), D('0')],
-    M.Number: [D('7'), D('0.10'), D('0')],
+    M.NumberExpr: [D('7'), D('-1.5'), D('0.10'), D('0'), D('123456789012.123456789012345678'), D('-123456789012.123456789012345678')],     # 30 significant digits: more than the decimal context keeps in arithmetic
+    M.Number: [D('7'), D('0.10'), D('0'), D('123456789012.123456789012345678')],
     M.Bool: [True, False],
     M.InlineComment: ['note', '', '; x ;', STR_SYM],
     M.BlockComment: ['bc', 'two\nlines', 'a\n\nb', ';x', STR_SYM],
@@ -85,7 +85,7 @@ CANDIDATES = {
     M.TransactionFlag: ['!', '*', 'P'],
     M.Indent: ['  ', '\t', '      '],
     bool: [True, False],
-    'meta': ['str val', 'q"u\\o', D('3'), D('-2.5'), datetime.date(2001, 2, 3), True, False],   # `match value: case str()` does not recognise CrossHair's symbolic str: concrete only
+    'meta': ['str val', 'q"u\\o', D('3'), D('-2.5'), D('-123456789012.123456789012345678'), datetime.date(2001, 2, 3), True, False],   # `match value: case str()` does not recognise CrossHair's symbolic str: concrete only
 }
 
 
